@@ -38,7 +38,7 @@ func init() {
 				},
 				Run:  c03Structured,
 				Rule: "hand-assembled streams: random metadata (0-2 chunks), 1..40 instructions over all opcodes, non-canonical number forms, repeat counts up to 32, optional reserved opcodes and truncation",
-				Min:  map[string]int64{"accepted": 1000, "rejected": 1000, "metadata_only_streams": 5000},
+				Min:  map[string]int64{"accepted": 1000, "rejected": 1000, "metadata_only_streams": 5000, "streams_beyond_64KiB": 30},
 			},
 			{
 				Name: "corpus-mutation",
@@ -176,11 +176,15 @@ func c03Structured(c *run.Ctx, idx uint64) {
 		n = 0 // the stream ends with its metadata
 		c.Count("metadata_only_streams", 1)
 	}
+	if r.Chance(1, 2500) {
+		n = r.Range(15000, 30000) // a stream beyond 64 KiB (the width of a 16-bit length or offset)
+		c.Count("streams_beyond_64KiB", 1)
+	}
 	cut := 0
 	if r.Chance(1, 4) {
 		cut = r.Range(1, 6)
 	}
-	b := gen.Stream(r, n, r.Chance(1, 3), cut)
+	b := gen.Stream(r, n, r.Chance(1, 3) && n < 1000, cut)
 	c03Judge(c, b, "structured")
 }
 
